@@ -279,7 +279,7 @@ PROPS["C02"] = {
     "assumptions": ["search is bounded by a 20 s CPU budget per case; budget hits are inconclusive"],
 }
 PROPS["C04"] = {
-    "runs": _prob("C04", 2000, 40000, layers=("L3",)),
+    "runs": _prob("C04", 1500, 40000, layers=("L3",), budget_ms=8000),
     "rule": "Planted timeline problems: 1-2 StateVariable subclasses with 1-2 predicates (optional minimal duration), 1-3 instances each, optional object variables over the instances, "
             "optional reusable resources; 2-7 facts / goals addressed to an instance or through a variable (tau still a variable), times given as arguments, as windows "
             "(start >= a, end <= b, duration >= d) or left free, zero-length atoms, atoms touching at an endpoint, explicit precedences, bounded horizon. Oracle on every reported solution: "
@@ -291,7 +291,7 @@ PROPS["C04"] = {
     "assumptions": [],
 }
 PROPS["C05"] = {
-    "runs": _prob("C05", 2000, 40000, layers=("L3",)),
+    "runs": _prob("C05", 1500, 40000, layers=("L3",), budget_ms=8000),
     "rule": "Generator of C04 biased to 1-3 ReusableResource instances with capacities in {0, 1, 3/2, 2, 4, 10} and Use atoms with amounts in {0, 1/2, 1, 2, 4, 5, exactly the remaining "
             "capacity}, resource fixed or a variable. Oracle on every reported solution: at every start pulse of an active Use atom the exact sum of the amounts of the active atoms with "
             "start <= p < end whose tau allows the resource is <= the resource's capacity, and the reported capacity equals the declared one. Non-trivial: >= 2 atoms overlap on one resource "
@@ -302,7 +302,7 @@ PROPS["C05"] = {
     "assumptions": [],
 }
 PROPS["C06"] = {
-    "runs": _prob("C06", 2000, 40000, layers=("L3",)),
+    "runs": _prob("C06", 1500, 40000, layers=("L3",), budget_ms=8000),
     "rule": "Generator of C04/C05 (facts and goals on state variables and reusable resources, whose Interval rule is applied implicitly to facts). Oracle on every reported solution, for every "
             "Active atom read back through the predicates' instance lists: origin <= start <= end <= horizon, duration == end - start, duration >= 0 (exact). Non-trivial: >= 2 active atoms. "
             "Distinct by program text. Plain (non smart-type) Interval / Impulse predicates, agents and consumable resources are not generated.",
